@@ -146,12 +146,19 @@ def gen_case(rng, direction, opts=None):
                 names.append(p)
             if where in ("dst", "both"):
                 dst[p] = (data if where == "both" and rng.chance(1, 2) else data + b"+", (1_600_000_000, 0))
+    clash_pats = []
     # failure branch: a destination DIRECTORY where the source has a file
     if opts.get("clash", True) and src and rng.chance(1, 10):
         victim = rng.pick(sorted(src))
         dst.pop(victim, None)
         dst[victim + "/inner"] = (b"inner", (1_600_000_000, 0))
         states[victim] = "clash"
+        # ... and inside that directory a file an exclude pattern protects: the run cannot put the source file
+        # there (it fails loudly), and whatever it does about the directory, the protected file stays
+        r4 = SplitMix.derive(rng.s, "clash-protected", 0)
+        if r4.chance(1, 2) and len((victim + "/keep.log").encode()) < 900:
+            dst[victim + "/keep.log"] = (b"protected by an exclude", (1_600_000_000, 0))
+            clash_pats.append(r4.pick(["*.log", "keep.log", "keep.*", "k??p.log"]))
     # siblings whose name EXTENDS another's (`data` beside `data.old`, `target` beside `target-x86`, `f` beside
     # `f.bak`), the longer one excluded by a slash-free pattern, present on both sides: a walk that recognises
     # "still inside the directory I just visited" by string prefix cuts the longer name in the middle. Drawn from a
@@ -185,7 +192,7 @@ def gen_case(rng, direction, opts=None):
                 states[p] = "sibling-" + where
             sib_pats.append(r3.pick([comps[lvl] + suffix, "*" + suffix, comps[lvl] + suffix + "/", comps[lvl][:1] + "*" + suffix]))
     # exclude patterns drawn from the tree's own names
-    pats = list(sib_pats) if opts.get("excludes", True) else []
+    pats = list(sib_pats) + clash_pats if opts.get("excludes", True) else []
     for _ in range(rng.pick([0, 0, 1, 1, 2, 3]) if opts.get("excludes", True) else 0):
         base = rng.pick(names)
         comps = base.split("/")
